@@ -390,7 +390,15 @@ where
                     let x = match rng.below(4) {
                         0 => rng.uniform(-25.0, 25.0),
                         1 => rng.uniform(-2.0, 2.0),
-                        2 => 0.0,
+                        // both zeros: -0.0 minus a zero message is an extrinsic of exactly -0.0, which `< 0.0`
+                        // and a sign-bit test classify differently
+                        2 => {
+                            if rng.coin() {
+                                0.0
+                            } else {
+                                -0.0
+                            }
+                        }
                         _ => rng.normal() * 6.0,
                     };
                     if f32t { x as f32 as f64 } else { x }
